@@ -5,6 +5,7 @@ from __future__ import annotations
 from .. import terms as tm
 from ..model import AnalysisError
 from .common import ob, need, call_name, resolve_ite_free, is_lit, lit, linear_form, count_form
+from . import common
 from .. import symeval
 
 PROP = "C18"
@@ -196,6 +197,28 @@ def rule_resample(ctx):
                     sides.add("below")  # target < times[k]
                 else:
                     sides.add("above")  # times[k] < target
+        # out-of-range detection through insertion points: searchsorted(times, t, side) == 0 means t < times[0] only for
+        # side="right" (side="left" also catches t == times[0]); == len(times) means t > times[-1] only for side="left"
+        for m in s.by_kind("mutate"):
+            if m.how != "setitem" or m.key is None:
+                continue
+            for x in tm.walk(m.key):
+                if x.op == "cmp" and x.a[0] == "==":
+                    for pos, k in ((x.a[1], x.a[2]), (x.a[2], x.a[1])):
+                        if pos.op == "call" and call_name(pos) in ("np.searchsorted", ".searchsorted") and len(pos.a[1]) >= 2 and pos.a[1][0].op == "param" and pos.a[1][0].a[0] == "times" and "target_times" in tm.params_of(pos.a[1][1]):
+                            side = dict(pos.a[2]).get("side", pos.a[1][2] if len(pos.a[1]) > 2 else tm.const("left"))
+                            if side.op != "const":
+                                continue
+                            if tm.is_const(k, 0):
+                                okb = side.a[0] == "right"
+                                if not okb:
+                                    yield ob(R, f, "multipitch.resample_multipitch:bounds", False, "searchsorted(times, t, side='left') == 0 also holds for t == times[0]: a reference time equal to the first estimate time gets the empty frame", node=m.node)
+                                    return
+                            elif "times" in tm.params_of(k) or "frequencies" in tm.params_of(k):
+                                okb = side.a[0] == "left"
+                                if not okb:
+                                    yield ob(R, f, "multipitch.resample_multipitch:bounds", False, "searchsorted(times, t, side='right') == len(times) also holds for t == times[-1]: a reference time equal to the last estimate time gets the empty frame instead of the last frame", node=m.node)
+                                    return
         if sides and sides != {"below", "above"}:
             yield ob(R, f, "multipitch.resample_multipitch:bounds", False, "the nearest-frame lookup was re-implemented and only target times %s the estimate's range are sent to the empty frame: times on the other side receive the first/last estimate frame" % ("above" if "above" in sides else "below"), node=None)
             return
@@ -299,6 +322,8 @@ def rule_matchsrc(ctx):
 
 
 RULES = [
+    ("C18.KWVIEW", 5, common.shared("c03", "rule_kwview", "C18.KWVIEW", keep=lambda o: o.construct.startswith("multipitch."))),
+    ("C18.NOMUT", 4, common.shared("c15", "rule_nomut", "C18.NOMUT", keep=lambda o: o.construct.startswith("multipitch."))),
     ("C18.MATCHSRC", 2, rule_matchsrc),
     ("C18.COUNTFORM", 1, rule_countform),
     ("C18.SAMEWINDOW", 8, rule_samewindow),
